@@ -12,6 +12,7 @@ mod e1conc;
 mod e1crash;
 mod driver;
 mod e2;
+mod e3;
 mod handlers;
 mod model;
 mod rng;
@@ -70,6 +71,7 @@ fn dispatch(cfg: RunCfg) -> RunResult {
                 match engine.as_str() {
                     "e1" => e1::run(cfg).await,
                     "e2" => e2::run(cfg).await,
+                    "e3" => e3::run(cfg).await,
                     other => RunResult::harness_error(&cfg, format!("unknown engine {}", other)),
                 }
             })
